@@ -355,8 +355,19 @@ def unique_bincount(
       Only returned if return_counts is True
     """
     values = np.asanyarray(values)
-    if len(values.shape) != 1 or values.dtype.kind != "i":
+    if len(values.shape) != 1 or values.dtype.kind not in "iu":
         raise ValueError("input must be 1D integers!")
+
+    # bin counting needs one bin for every integer up to the largest
+    # value: for negative values or values which are huge compared to
+    # the number of values (where `np.bincount` raises, exhausts memory
+    # or silently returns nothing) use the sorting based `np.unique`
+    if len(values) > 0 and (
+        values.min() < 0 or values.max() > max(int(minlength), 64 * len(values) + 65536)
+    ):
+        return np.unique(
+            values, return_inverse=return_inverse, return_counts=return_counts
+        )
 
     try:
         # count the number of occurrences of each value
